@@ -303,8 +303,30 @@ def apply_impl(fields, step):
         return TransformedMeshFields(fields, lambda mesh: PermutedMesh(mesh, point_permutation=pp, cell_permutations=cps))
     if k == "merge":
         others = [to_fc(lm) for lm in step[1]]
+        _LAST_OPERANDS[:] = list(zip(others, step[1]))
         return fm.merge(fields, *others, remove_duplicate_points=step[2])
     raise ValueError(k)
+
+
+_LAST_OPERANDS: list = []     # (object, logical mesh it was built from) of the further operands of the last merge
+
+
+def operands_damage(fields, before, step):
+    """the operands of a transformation are data sets of their own: none of them may have lost / changed a point, cell or
+    value because it took part (the first operand `fields` and, for merge, the further pieces) -> description or None"""
+    with warnings.catch_warnings():
+        warnings.simplefilter("ignore")
+        with np.errstate(all="ignore"):
+            try:
+                if units(from_fc(fields)) != units(before):
+                    return "first operand differs from what it was before the call"
+                if step[0] == "merge":
+                    for k, (obj, lm) in enumerate(_LAST_OPERANDS):
+                        if units(from_fc(obj)) != units(lm):
+                            return f"operand no. {k + 2} of merge differs from what it was before the call"
+            except Exception as e:  # noqa: BLE001
+                return f"operand unreadable after the call: {type(e).__name__}: {e}"[:200]
+    return None
 
 
 def run_impl_step(fields, step):
@@ -536,6 +558,12 @@ def check_case(ctx, case, tags=(), record=True):
             break
         # ---------------- search: implementation vs the property
         k = step[0]
+        opd = operands_damage(fields, before, step)
+        if opd:
+            ctx.violation(one, opd, "operands unchanged", cls=None,
+                          what=f"{k}: a data set handed to the transformation lost / changed points, cells or values")
+            problems += 1
+            tags.append("damaged-operand")
         damage = invalid(after)
         if damage:
             ctx.violation(one, damage, "a well-formed data set", cls=None, what=f"{k}: result is not a well-formed data set")
@@ -923,6 +951,24 @@ def run(ctx):
                 ctx.violation({"lm": pieces[0], "steps": [["merge", pieces[1:], True]], "whole": whole},
                               _content_diff(py_content(whole), py_content(after)), "content of the whole", cls=None,
                               what="merge of the pieces of a data set is not the data set")
+    # narrow index types: connectivity stored as uint8 / int8 / int16 / uint16 / int32 in a mesh that has MORE points than
+    # the type can count (the surplus points are unconnected and come last, so every index inside a cell still fits)
+    for i in range(ctx.scale(6, 120)):
+        cdt = ["u8", "i8", "u8", "i16", "u16", "i32"][i % 6]
+        lm, tags = gen_mesh(rng, max_cells_per_dir=2, dims=(2, 3), allow_duplicates=False, allow_orphans=False)
+        cap = {"u8": 255, "i8": 127}.get(cdt)
+        if cap is not None and len(lm["points"]) > cap // 2:
+            continue
+        span = max([abs(x) for q in lm["points"] for x in q] + [1.0])
+        extra = (cap + 20 - len(lm["points"])) if cap is not None else rng.randint(3, 30)
+        for j in range(extra):
+            lm["points"].append([span * (2.0 + 0.37 * j + 0.011 * d) for d in range(lm["dim"])])
+        for f in lm["pf"]:
+            rs = _rowsize(f["tail"])
+            f["v"] = f["v"] + [(1000 + j if f["dt"][0] in "iu" else 1000.5 + j) for j in range(extra * rs)]
+        lm["conn_dtype"] = cdt
+        for steps in ([("sort_points",)], [("sort_points",), ("sort_cells",)], [("sort",)], [("strip",)]):
+            check_case(ctx, {"lm": lm, "steps": steps}, ["narrow-index-" + cdt, "narrow-" + steps[0][0]])
     # one deterministic F3-class case per run (recorded finding, DESIGN §8)
     quad = {"dim": 2, "points": [[0.0, 0.0], [1.0, 0.0], [1.0, 1.0], [0.0, 1.0]], "cells": [["QUAD", [[0, 1, 2, 3]]]],
             "pf": [], "cf": []}
